@@ -80,9 +80,19 @@ def _touchy(v):
     return v
 
 
-def _touchy_factory():
-    import collections
-    return collections.defaultdict(_touchy_factory)
+class _TouchyFactory(object):
+    """default_factory with a fixed repr: error messages print the instance, and a function's repr carries an
+    address that differs from process to process (found by the determinism self-test)."""
+
+    def __call__(self):
+        import collections
+        return collections.defaultdict(_touchy_factory)
+
+    def __repr__(self):
+        return "<touchy>"
+
+
+_touchy_factory = _TouchyFactory()
 
 
 def materialise(value, world):
